@@ -18,9 +18,9 @@ CHUNK = 64
 SHAPE_KINDS = ("point", "multipoint", "line", "multiline", "polygon", "multipolygon")
 
 
-def check_chunk(col, kind, shapes, G, subtypes, seed, chunk_id=0, transforms=None):
+def check_chunk(col, kind, shapes, G, subtypes, seed, chunk_id=0, transforms=None, qpts=None):
     from spatialpandas import GeoSeries
-    qpts = L.all_query_points(G)
+    qpts = qpts or L.all_query_points(G)
     PX = np.array([p[0] for p in qpts], dtype=np.int64)
     PY = np.array([p[1] for p in qpts], dtype=np.int64)
     npt = len(qpts)
@@ -41,6 +41,11 @@ def check_chunk(col, kind, shapes, G, subtypes, seed, chunk_id=0, transforms=Non
             parr = L.make_array("point", qpts, st, T)
             parr_none = L.make_array("point", with_none, st, T)
             parr_sl = parr_none[1:]                     # non-zero offset, starts at a real point
+            parr_ix = L.make_array("point", with_none, st, T)
+            try:
+                parr_ix.build_sindex(page_size=3)          # state carried on the object must not matter
+            except Exception:
+                parr_ix = None
             ivs = inds_vectors(npt + 3)
             ser = GeoSeries(parr_none, index=[f"p{i}" for i in range(npt + 3)])
             scalars = [parr[i] for i in range(npt)]
@@ -84,6 +89,13 @@ def check_chunk(col, kind, shapes, G, subtypes, seed, chunk_id=0, transforms=Non
                     b = int(np.nonzero(gots != gotn[1:])[0][0])
                     col.violation(f"{kind}.sliced", dict(case, form="sliced", index=b),
                                   f"slice[1:] position {b}: got {gots[b]} vs unsliced {gotn[1:][b]}")
+                if parr_ix is not None:
+                    col.count("evaluations", npt + 3)
+                    gix = np.asarray(parr_ix.intersects(shape))
+                    if (gix != gotn).any():
+                        b = int(np.nonzero(gix != gotn)[0][0])
+                        col.violation(f"{kind}.array_with_sindex", dict(case, form="array_with_sindex", index=b),
+                                      f"after build_sindex position {b}: got {gix[b]} vs {gotn[b]}")
                 # ---- slices starting on byte boundaries of the validity bitmap
                 for off in (8, 16):
                     col.count("evaluations", npt + 3 - off)
@@ -168,17 +180,39 @@ def warm():
                 parr[0].intersects(s)
 
 
+def huge_units():
+    """2^26-long segments / triangles passing within one unit of the test points around the origin (see C01)"""
+    from .c01 import huge_units as hu
+    M = 2 ** 25
+    pts = [(x, y) for x in range(-2, 3) for y in range(-2, 3)] + [(M, M), (-M, -M), (M - 1, M - 1), (M, 0), (0, -M), (M // 2, M // 2),
+                                                                  (M // 2, M // 2 + 1), (-M + 1, -M + 1)]
+    out = []
+    for kind, el, _ in hu():
+        if kind in ("line", "polygon"):
+            el = [e for e in el if e not in (None, ())]
+            out.append((kind, el[:64], pts))
+    return out
+
+
 def run(ctx):
     warm()
     units = plan(ctx)
     rot = ctx.seed % max(1, len(units))
+    hu = huge_units()
+    if not ctx.thorough:
+        hu = hu[ctx.seed % 2::2]
+    nu = len(units)
 
     def work(col, i):
+        if i >= nu:
+            kind, el, pts = hu[i - nu]
+            check_chunk(col, kind, el, 0, ("float64", "int64", "int32"), ctx.seed, chunk_id=i, transforms=[(1, 0, 0)], qpts=pts)
+            return
         j = (i + rot) % len(units)
         kind, shapes, G = units[j]
         check_chunk(col, kind, shapes, G, L.SUBTYPES, ctx.seed, chunk_id=j)
 
-    core.pmap(ctx, work, len(units))
+    core.pmap(ctx, work, len(units) + len(hu))
     ctx.rule = ("every shape of the lattice families (points, multipoints, all vertex sequences for lines, "
                 "multiline pool, every simple lattice polygon in every rotation/direction, holes family, "
                 "multipolygon pool) x every integer point of [-1,2G+1]^2 x 5 point subtypes x forms. "
